@@ -88,22 +88,31 @@ pub fn run(ctx: &Ctx, rep: &mut Report) {
         let keys = world.keys();
         // long-lived tokenizers + one reused list per mode: the field request changes between analyses
         let mut live: Vec<Tok> = MODES.iter().map(|m| Tok::new(&world.dict, *m)).collect();
+        let mut live_bits: [u32; 3] = [0x3ff; 3];
         for ti in 0..40 {
             let text = textgen::text_from_keys(&mut rng, &keys, 8);
             let mode = MODES[rng.below(3)];
-            let bits = match rng.below(4) {
+            let mut bits = match rng.below(4) {
                 0 => 1 << rng.below(10),
                 1 => 0,
                 _ => (rng.next() as u32) & 0x3ff,
             };
             let order = rng.chance(1, 2);
+            // on the long-lived tokenizers the request is sometimes left as it is (two analyses in a row)
+            let keep_request = ti % 2 == 1 && rng.chance(1, 2);
+            if keep_request {
+                bits = live_bits[MODES.iter().position(|m| *m == mode).unwrap()];
+            }
             rep.eval();
             let mut full_t = Tok::new(&world.dict, mode);
             let use_live = ti % 2 == 1;
             let mut fresh_t = Tok::new(&world.dict, if order { Mode::C } else { mode });
             let mi = MODES.iter().position(|m| *m == mode).unwrap();
             let sub_t: &mut Tok = if use_live {
-                live[mi].tok.set_subset(subset_of(bits));
+                if !keep_request {
+                    live[mi].tok.set_subset(subset_of(bits));
+                    live_bits[mi] = bits;
+                }
                 rep.count("analyses_on_long_lived_tokenizers", 1);
                 &mut live[mi]
             } else {
